@@ -663,12 +663,18 @@ def run_property(prop, module, tier, level, assumptions, trusted=None, extra_cov
             for r in o["results"][:1]:
                 samples.append({"obligation": r["id"], "shape": o["shape"], "verdict": r["status"]})
         samples = samples[:5] or [{"note": "no obligations"}]
+    # obligations of the concrete layers: the real code run with the real z3 / matplotlib / pandas and judged by an
+    # independent oracle (trace validation against the implementation)
+    concrete_markers = ("/enumeration/", "/concrete/", "/real_z3/", "/agg/", "/serialisers/", "/grid/", "/rule/", "/registry/")
+    concrete_runs = sum(1 for o in outs for r in o["results"] if any(m in r["id"] for m in concrete_markers) and r["status"] in ("unsat", "ok"))
     cov = {
         "programs": programs,
         "disagreements_checked": replays,
         "states": programs,
         "transitions": queries,
-        "traces_validated_against_impl": replays,
+        "traces_validated_against_impl": replays + concrete_runs,
+        "concrete_layer_runs": concrete_runs,
+        "counterexample_replays": replays,
         "samples": samples,
         "evaluations": n_ob,
         "distinct_nontrivial": len({r["id"] for o in outs for r in o["results"] if r["status"] in ("unsat", "sat", "ok")}),
